@@ -105,7 +105,7 @@ fn prefix(s: &str, n: usize) -> &str {
 
 /// (opening text, closing text, filler) of every recursive construct: a tower of
 /// depth d is open^d filler close^d embedded in a statement.
-const TOWERS: &[(&str, &str, &str, &str, &str)] = &[
+pub const TOWERS: &[(&str, &str, &str, &str, &str)] = &[
     // (statement prefix, open, filler, close, statement suffix)
     ("defvar a = ", "(x ", "1", ")", ";"),
     ("defvar a = ", "[", "1", "]", ";"),
@@ -153,7 +153,7 @@ const CHAINS: &[(&str, &str, &str)] = &[
 
 const OPENERS: &[&str] = &["\"u", "[{u", "/*u", "#ifdef A\n", "#ifndef A\n", "#else\n", "(", "[", "{", "<", "!cond(", "!add<"];
 
-fn tower(t: &(&str, &str, &str, &str, &str), depth: usize) -> String {
+pub fn tower(t: &(&str, &str, &str, &str, &str), depth: usize) -> String {
     let mut s = String::new();
     s.push_str(t.0);
     for _ in 0..depth {
